@@ -10,6 +10,7 @@ import ChessVerif.Props.C17.Basic
 import ChessVerif.Proofs.BookWalk.All
 import ChessVerif.Proofs.BookLines
 import ChessVerif.Proofs.CliBook
+import ChessVerif.Proofs.BookGenRound
 
 namespace Chess.Props.C17
 open Chess Chess.Book
@@ -67,6 +68,30 @@ theorem cli_book_phase_unwrap (fuel : Nat) (draws : List Nat)
 /-- non-vacuity: drawing index 0 plays 1. e2-e4 and hands the move to Black -/
 example : (match Cli.bookPhase 3 Book.root Board.standard [0] with
     | .ok b => b.turn == .black && (b.raw.get 28).isSome | .error _ => false) = true := by decide +kernel
+
+/-! ### the producer: the book builder (`Model/BookGen.lean`: `validate`, `trim`, `encode` of chess-lookup-generator) -/
+
+/-- **Round trip of the builder, for every trie.**  Whatever table `read_lichess_games()` emits (`build t = some tbl`),
+reading it the way `BookMovesIter::next` reads the embedded one finds — up to order — exactly the lines of the trimmed
+trie that `encode` keeps, except the subtree of the first block written (`readable`: the reader stops before yielding a
+block that starts at table index 0), and the walk never leaves the table.  In particular a sibling link that does not
+fit 16 bits cannot occur in an emitted table: the builder refuses such a trie (`build t = none`). -/
+theorem builder_round_trip (t : BookGen.Trie) (tbl : Array Nat) (h : BookGen.build t = some tbl) :
+    ∃ t' r, BookGen.trim t 0 = some (t', r) ∧
+      (BookGen.lines tbl (tbl.size + 1) (tbl.size - 1) [] []).Perm (BookGen.keptLines (BookGen.readable t') 0 [] []) ∧
+      (tbl.size ≠ 0 → BookGen.inRange tbl (tbl.size + 1) (tbl.size - 1) = true) := by
+  unfold BookGen.build at h
+  split at h
+  · cases h
+  · split at h
+    · cases h
+    · rename_i t' r htrim
+      exact ⟨t', r, htrim, BookGen.lines_encode t' tbl h, BookGen.inRange_encode t' tbl h⟩
+
+/-- non-vacuity: a two-line trie (counts above the trimming and commit thresholds, leaves at ply 8 omitted by giving
+the inner nodes the depth fields the source would) is accepted and its table is non-empty -/
+example : (match BookGen.encode (.node 1000 8 [(1, .node 400 7 []), (2, .node 600 7 [(3, .node 600 6 [])])]) #[] 0 with
+    | some tbl => tbl.size == 9 | none => false) = true := by decide +kernel
 
 /-- non-vacuity: 1. e2-e4 is a path of the book (the first move the root iterator yields) -/
 example : Book.Path Book.root [⟨12, 28, none⟩] := by
